@@ -16,11 +16,8 @@ import tempfile
 
 ROOT = os.path.dirname(os.path.dirname(os.path.abspath(__file__)))
 REPO = "/repo"
-RELATED = {"C01": ["C06", "C07", "C19", "C20"], "C02": ["C06", "C07", "C19", "C20"], "C06": ["C01", "C02", "C07", "C20", "C19"], "C07": ["C01", "C02", "C06"],
-           "C03": ["C08", "C09", "C10", "C19"], "C08": ["C03", "C09", "C10", "C18", "C19"], "C09": ["C08", "C10", "C19", "C03"], "C10": ["C09", "C03", "C08"],
-           "C04": ["C11", "C12", "C13", "C18", "C19"], "C11": ["C04", "C12", "C18", "C19"], "C12": ["C04", "C11", "C18"], "C13": ["C04", "C11", "C19"],
-           "C18": ["C08", "C11", "C12", "C19"], "C05": ["C17", "C19"], "C17": ["C05", "C19"], "C14": ["C19"], "C15": ["C19"], "C16": ["C19"],
-           "C19": ["C01", "C09", "C18"], "C20": ["C06", "C19"]}
+RELATED = {"C01": ["C06", "C07"], "C02": ["C06", "C07"], "C06": ["C01", "C02"], "C04": ["C11"], "C13": ["C04", "C11"], "C12": ["C18", "C11"], "C11": ["C18", "C04"],
+           "C18": ["C12", "C08"], "C05": ["C17"], "C17": ["C05"], "C08": ["C09", "C03"], "C09": ["C10", "C08"], "C10": ["C09"], "C03": ["C08", "C10"], "C20": ["C06"]}
 
 
 def one(job):
